@@ -32,6 +32,8 @@ pub struct Ctx<M: AlignMarker> {
     pub local_addr: usize,
     pub in_tls: bool,
     pub check_pins: bool,
+    /// epoch this thread's participant announced when its current critical section began
+    pub cs_epoch: Option<usize>,
     /// op numbering offset (TLS destructor programs continue after the main program)
     pub op_base: u32,
 }
@@ -99,6 +101,7 @@ impl<M: AlignMarker> Ctx<M> {
             local_addr: 0,
             in_tls: false,
             check_pins: true,
+            cs_epoch: None,
             op_base: 0,
         })
     }
@@ -241,6 +244,31 @@ impl<M: AlignMarker> Ctx<M> {
             );
             sh.soft("C16", &format!("pin-state-mismatch/{}", if pinned { "pinned-without-guard" } else { "unpinned-with-guard" }), det);
         }
+        // While the thread holds a guard its announced epoch stays put: the library re-announces a
+        // participant only while its last guard is being dropped (collection in `unpin`, the
+        // cascade's re-pin every 128 nodes) or on reactivation of its sole guard. A move inside a
+        // live critical section ends that section's protection early, whatever made it.
+        if live > 0 && pinned {
+            let cur = p.epoch_word >> 1;
+            match self.cs_epoch {
+                None => self.cs_epoch = Some(cur),
+                Some(e0) if cur != e0 => {
+                    let det = format!(
+                        "{}: thread t{} holds {} guard(s) of a critical section announced at epoch {}, but its participant now announces epoch {}",
+                        when, self.tid, live, e0, cur
+                    );
+                    sh.soft("C16,C14", "announced-epoch-moved-inside-cs", det.clone());
+                    if cur.wrapping_sub(e0) >= 2 {
+                        // two steps let the clock reach e0 + 3: garbage retired inside this very
+                        // critical section expires while it is still active
+                        sh.soft("C02,C13,C16,C14", "cs-protection-lost", det);
+                    }
+                }
+                _ => {}
+            }
+        } else {
+            self.cs_epoch = None;
+        }
     }
 
     pub fn exec_all(&mut self, ops: &[Op]) {
@@ -365,6 +393,7 @@ impl<M: AlignMarker> Ctx<M> {
                 sh.ucs[tid].suspended = false;
                 if sole {
                     sh.cs_restarted_for(tid, uid);
+                    self.cs_epoch = None;
                 }
                 // C16: what reactivation did to the announced epoch
                 if let Some(bf) = before {
